@@ -206,7 +206,7 @@ def file_tasks(args):
         for i in sorted(picks):
             body = lines[i].rstrip(b"\r\n")
             for w in (6, 8, 12):
-                for p0 in range(0, max(1, len(body) - w + 1), 3 if nmut < 100 else 2):
+                for p0 in range(0, max(1, len(body) - w + 1), 3):
                     new = body[:p0] + b" " * w + body[p0 + w:] + lines[i][len(body):]
                     if new != lines[i]:
                         variants.append((b"".join(lines[:i]) + new + b"".join(lines[i + 1:]), "mutation:blankfield"))
